@@ -17,6 +17,7 @@ MAXTASKS = 12
 
 HELPERS = '''
 def use(x: object) -> None: pass
+def opaque() -> bool: ...
 def is_int(x: object) -> TypeIs[int]: return isinstance(x, int)
 def is_str_guard(x: object) -> TypeGuard[str]: return isinstance(x, str)
 def is_a(x: object) -> TypeIs[A]: return isinstance(x, A)
@@ -85,6 +86,18 @@ def all_cases(tier):
             out.append((v, "if", i))
         for i in range(len(PATTERNS)):
             out.append((v, "match", i))
+    # the condition stored in a variable first; a guarded case (the guard may be false, so every object can reach `case _`)
+    small = [v for v in vs if "[" not in v or v.startswith(("Optional", "Union", "tuple[int, str]", "tuple[int]", "Literal"))] + [v for v in EXTRA_V if v in vs]
+    seen = set()
+    for v in small:
+        if v in seen:
+            continue
+        seen.add(v)
+        for i in range(len(CONDS)):
+            out.append((v, "stored", i))
+            out.append((v, "storedr", i))
+        for i in range(len(PATTERNS)):
+            out.append((v, "matchg", i))
     return out
 
 
@@ -105,6 +118,16 @@ def _fn_src(k, v, form, ci):
     if form == "if":
         c = CONDS[ci][0]
         return "def f%d(x: %s) -> None:\n    if %s:\n        use(x)\n    else:\n        use(x)\n" % (k, v, c)
+    if form == "stored":
+        c = CONDS[ci][0]
+        return "def f%d(x: %s) -> None:\n    ok = %s\n    if ok:\n        use(x)\n    else:\n        use(x)\n" % (k, v, c)
+    if form == "storedr":
+        # the tested variable may be reassigned (on one path only) between storing the condition and branching on it
+        c = CONDS[ci][0]
+        return ("def f%d(x: %s, y: %s) -> None:\n    ok = %s\n    if opaque():\n        x = y\n    if ok:\n        use(x)\n    else:\n        use(x)\n" % (k, v, v, c))
+    if form == "matchg":
+        p = PATTERNS[ci][0]
+        return "def f%d(x: %s) -> None:\n    match x:\n        case %s if opaque():\n            use(x)\n        case _:\n            use(x)\n" % (k, v, p)
     p = PATTERNS[ci][0]
     return "def f%d(x: %s) -> None:\n    match x:\n        case %s:\n            use(x)\n        case _:\n            use(x)\n" % (k, v, p)
 
@@ -155,9 +178,9 @@ def _run_cases(res, tier, cs, base):
             res.states += 1
             order = base + k
             fn = funcs["f%d" % k]
-            if form == "if":
+            if form in ("if", "stored", "storedr"):
                 csrc, tested, lits = CONDS[ci]
-                stmt = fn.body[0]
+                stmt = fn.body[0] if form == "if" else (fn.body[1] if form == "stored" else fn.body[2])
                 pos_node = stmt.body[0].value.args[0]
                 neg_node = stmt.orelse[0].value.args[0]
                 cond_code = compile(csrc, "<cond>", "eval")
@@ -165,7 +188,7 @@ def _run_cases(res, tier, cs, base):
                 cond_line = stmt.lineno
             else:
                 psrc, tested, lits = PATTERNS[ci]
-                csrc = "match " + psrc
+                csrc = ("match " if form == "match" else "guarded match ") + psrc
                 stmt = fn.body[0]
                 pos_node = stmt.cases[0].body[0].value.args[0]
                 neg_node = stmt.cases[1].body[0].value.args[0]
@@ -225,17 +248,26 @@ def _run_cases(res, tier, cs, base):
                     r = evalc(o)
                 except Exception:
                     continue
-                if lits is not None and ("==" in csrc or "!=" in csrc or " in " in csrc or form == "match"):
+                if lits is not None and ("==" in csrc or "!=" in csrc or " in " in csrc or form in ("match", "matchg")):
                     try:
                         if any((o == l) and type(o) is not type(l) for l in lits) or (lits == [] and False):
                             continue
                     except Exception:
                         continue
-                    if isinstance(o, (tuple, list)) and form == "match" and any(isinstance(x, bool) or isinstance(x, float) for x in o):
+                    if isinstance(o, (tuple, list)) and form in ("match", "matchg") and any(isinstance(x, bool) or isinstance(x, float) for x in o):
                         continue
                 n_members += 1
                 vals = pos_vals if r else neg_vals
                 res.validated += 1
+                if form == "matchg" and r and neg_vals:
+                    # the guard may be false: an object that matches the pattern can also arrive in `case _`
+                    try:
+                        if not any(in_value(o, nv) for nv in neg_vals):
+                            res.violation({"kind": "lost", "cond": csrc, "branch": "guard-false", "v": _vshape(v), "special": _special(v), "otype": type(o).__name__, "narrowed": type(neg_vals[-1]).__name__},
+                                          {"v": v, "form": form, "ci": ci, "order": order},
+                                          "x: %s; `case %s if <guard>` with a false guard sends %s to `case _`, but the value there is %s" % (v, psrc, osrc, neg_vals[-1]))
+                    except Unknown:
+                        pass
                 if always is True and not r:
                     res.violation({"kind": "always-true-wrong", "cond": csrc, "v": _vshape(v), "special": _special(v), "otype": type(o).__name__}, {"v": v, "form": form, "ci": ci, "order": order},
                                   "x: %s; `%s` is reported always true (%s) but is false for %s" % (v, csrc, diags[0][1][:80], osrc))
@@ -249,13 +281,43 @@ def _run_cases(res, tier, cs, base):
                     ok = any(in_value(o, nv) for nv in vals)
                 except Unknown:
                     continue
-                res.outcomes["%s:%s" % ("match" if form == "match" else "if", "kept" if ok else "lost")] += 1
+                res.outcomes["%s:%s" % (form, "kept" if ok else "lost")] += 1
                 if not ok:
                     nar = vals[-1]
-                    res.violation({"kind": "lost", "cond": csrc, "branch": r, "v": _vshape(v), "special": _special(v), "otype": type(o).__name__,
+                    res.violation({"kind": "lost", "cond": csrc, "branch": r, "v": _vshape(v), "special": _special(v), "otype": type(o).__name__, "form": form,
                                    "narrowed": "Never" if nar is NO_RETURN_VALUE else type(nar).__name__},
                                   {"v": v, "form": form, "ci": ci, "order": order},
                                   "x: %s; `%s` is %s for %s, but the value in that branch is %s" % (v, csrc, r, osrc, nar))
+            if form == "storedr":
+                # x may hold ANY member of V in either branch (it may have been replaced by y after the test was stored)
+                mems = []
+                truth = set()
+                for osrc, o in zip(usrc, objs):
+                    try:
+                        if member(o, tv):
+                            mems.append((osrc, o))
+                            try:
+                                truth.add(evalc(o))
+                            except Exception:
+                                pass
+                    except Unsupported:
+                        pass
+                for r in truth:
+                    vals = pos_vals if r else neg_vals
+                    if not vals:
+                        continue
+                    for osrc, o in mems:
+                        res.validated += 1
+                        try:
+                            ok = any(in_value(o, nv) for nv in vals)
+                        except Unknown:
+                            continue
+                        if not ok:
+                            res.violation({"kind": "lost", "cond": csrc, "branch": r, "v": _vshape(v), "special": _special(v), "otype": type(o).__name__, "form": "storedr-reassigned",
+                                           "narrowed": "Never" if vals[-1] is NO_RETURN_VALUE else type(vals[-1]).__name__},
+                                          {"v": v, "form": form, "ci": ci, "order": order},
+                                          "x, y: %s; `ok = %s`, then `if opaque(): x = y`, then `if ok` (branch %s): x may hold %s (the old y), but the value there is %s" % (v, csrc, r, osrc, vals[-1]))
+                            break
             if n_members:
                 res.extra["pairs_with_members"] += 1
             if order % 1999 == 0:
